@@ -160,6 +160,18 @@ def check_flatten(case):
 def run(ctx):
     from contracts import c_flatten as cf
     ctx.verify(cf.engine(), cf.VERIFY)
+    # flattened names: separator guards of walk(), make_name, and injectivity of the ':'-join over them
+    for fn, minimum in ((cf.walk_guard_obligations, 4), (cf.make_name_obligations, 3)):
+        key, obs, info = fn()
+        for u in info.get("unsupported", []):
+            ctx.unsupported.append((key, u))
+        if len(obs) < minimum and not info.get("unsupported"):
+            ctx.checker_errors.append(f"only {len(obs)} obligations for {key}")
+        ctx.discharge(obs, key + (" [separator guards]" if "walk" in key else " [paths of 1-3 instances]"), info)
+    for name, asm, goal in cf.join_injective_lemmas():
+        ctx.lemma(name + " (over walk's separator guards and make_name's contract)", asm, goal, timeout_ms=30000)
+    ctx.assumptions.append("flattened-name injectivity is proved for paths of up to 3 instances (arity unrolled); walk() "
+                           "itself (a recursive generator) and flatten()'s assembly loops are decided by the bounded part")
     fam = [d for k, d in enumerate(design_family(ctx.tier, ctx.seed)) if ctx.tier == "thorough" or k % 3 == 0]
     cases = itertools.chain(hier_designs(ctx.tier, ctx.seed), fam)
     ctx.run_bounded("flatten-vs-original", cases, check_flatten,
